@@ -1,6 +1,7 @@
 package main
 
 import (
+	"go/constant"
 	"fmt"
 	"go/token"
 	"strings"
@@ -179,6 +180,30 @@ func (c *Ctx) errOutcome(fn *ssa.Function, p CPath) int {
 	return -1
 }
 
+// flagInit: the initial value of a captured one-bit flag at the backoff.Retry
+// of the enclosing function — the cell is allocated there, and the enclosing
+// function stores at most one constant into it, before the Retry (none: false).
+func flagInit(cell *ssa.FreeVar, s SendClosure) (bool, bool) {
+	bind, _ := freeVarBinding(cell).(*ssa.Alloc)
+	if bind == nil || bind.Parent() != s.Parent {
+		return false, false
+	}
+	val, n := false, 0
+	for _, ref := range *bind.Referrers() {
+		st, isSt := ref.(*ssa.Store)
+		if !isSt {
+			continue
+		}
+		n++
+		k, isK := st.Val.(*ssa.Const)
+		if !isK || k.Value == nil || k.Value.Kind() != constant.Bool || !mustPrecede(s.Parent, st, s.Retry) {
+			return false, false
+		}
+		val = constant.BoolVal(k.Value)
+	}
+	return val, n <= 1
+}
+
 func checkC18(c *Ctx, r *Report) {
 	r.Explain = "Metric accounting as path counting: metrics are resolved to their registered names from the package initialisers; on every CFG path of each SendCommand implementation, of the command send closures, of the session/connection open functions and of the close functions, the number of Inc/Dec events per metric is compared with the outcome of that path (error returned or not, first attempt or retry, reply accepted or not); all other touch points of these metrics are reported. Exact per path; says nothing about totals over histories beyond what per-call exactness implies."
 	r.NotDecided = []string{"totals over arbitrary histories (follow from per-call exactness by induction, not checked as such)", "prometheus client internals"}
@@ -206,10 +231,6 @@ func checkC18(c *Ctx, r *Report) {
 		name := c.FnName(fn)
 		r.Fn(name)
 		cmdParam := fn.Params[len(fn.Params)-1]
-		isCmdName := func(v ssa.Value) bool {
-			call, ok := v.(*ssa.Call)
-			return ok && call.Call.IsInvoke() && call.Call.Method.Name() == "Name" && call.Call.Value == ssa.Value(cmdParam)
-		}
 		complete := enumPaths(fn, 2, 20000, func(p CPath) {
 			if _, isRet := p.Last().(*ssa.Return); !isRet {
 				return
@@ -225,8 +246,11 @@ func checkC18(c *Ctx, r *Report) {
 			fail := countEv(evs, "command_failures_total", "Inc")
 			labelsOK := true
 			for _, e := range evs {
-				if (e.Metric == "command_attempts_total" || e.Metric == "command_failures_total") && !isCmdName(e.Label) {
-					labelsOK = false
+				if e.Metric == "command_attempts_total" || e.Metric == "command_failures_total" {
+					call, ok := e.Label.(*ssa.Call)
+					if !ok || !call.Call.IsInvoke() || call.Call.Method.Name() != "Name" || p.Resolve(call.Call.Value) != ssa.Value(cmdParam) {
+						labelsOK = false
+					}
 				}
 			}
 			// attempts must precede the first call that can send
@@ -308,23 +332,40 @@ func checkC18(c *Ctx, r *Report) {
 				}
 				cell, _ := ld.(*ssa.UnOp).X.(*ssa.FreeVar)
 				flagCell = cell
+				// polarity-agnostic: the flag holds its initial value exactly on the first
+				// invocation; every invocation must leave it at the other value
+				initVal, initOK := flagInit(cell, s)
+				if !initOK {
+					why = "the flag's initial value before backoff.Retry cannot be determined"
+				}
+				loadAt, storeAt := -1, -1
 				cleared := false
-				for _, in := range p.Instrs() {
+				for k, in := range p.Instrs() {
+					if in == ssa.Instruction(ld.(*ssa.UnOp)) && loadAt < 0 {
+						loadAt = k
+					}
 					if fc, v, ok := capturedCellStore(in); ok && fc == cell {
-						if k, isK := constInt(v); isK && k == 0 {
+						if storeAt < 0 {
+							storeAt = k
+						}
+						if kv, isK := v.(*ssa.Const); isK && kv.Value != nil && kv.Value.Kind() == constant.Bool && constant.BoolVal(kv.Value) == !initVal {
 							cleared = true
 						} else {
-							why = "first-attempt flag set to something other than false"
+							why = "the flag is set to something other than the negation of its initial value"
 						}
 					}
 				}
-				if flag.Arm {
+				if storeAt >= 0 && loadAt > storeAt {
+					why = "the flag is read after it has been updated"
+				}
+				first := flag.Arm == initVal // the loaded value equals the initial one
+				if first {
 					okRetry = retries == 0 && cleared && why == ""
 					if !okRetry && why == "" {
-						why = fmt.Sprintf("first invocation: retries incremented %d times, flag cleared=%v", retries, cleared)
+						why = fmt.Sprintf("first invocation: retries incremented %d times, flag flipped=%v", retries, cleared)
 					}
 				} else {
-					okRetry = retries == 1 && why == ""
+					okRetry = retries == 1 && why == "" && (cleared || storeAt < 0)
 					if !okRetry && why == "" {
 						why = fmt.Sprintf("re-invocation: retries incremented %d times (want 1)", retries)
 					}
@@ -342,8 +383,8 @@ func checkC18(c *Ctx, r *Report) {
 						labelOK = false
 						continue
 					}
-					ld, ok := call.Call.Args[0].(*ssa.UnOp)
-					if !ok || !strings.HasSuffix(apOf(ld.X).SelString(), fMsg+".CompletionCode") {
+					ld, ok := p.Resolve(call.Call.Args[0]).(*ssa.UnOp)
+					if !ok || !strings.HasSuffix(p.AP(ld.X).SelString(), fMsg+".CompletionCode") {
 						labelOK = false
 					}
 				}
@@ -364,22 +405,8 @@ func checkC18(c *Ctx, r *Report) {
 			if flagCell == nil {
 				r.Bad(c.FnName(s.Parent)+"|first-attempt flag", s.Parent.Pos(), "no first-attempt flag")
 			} else {
-				bind, _ := freeVarBinding(flagCell).(*ssa.Alloc)
-				ok := bind != nil
-				if ok {
-					n := 0
-					for _, ref := range *bind.Referrers() {
-						if st, isSt := ref.(*ssa.Store); isSt {
-							n++
-							k, isK := constInt(st.Val)
-							if !isK || k != 1 || !mustPrecede(s.Parent, st, s.Retry) {
-								ok = false
-							}
-						}
-					}
-					ok = ok && n == 1
-				}
-				r.Check(ok, c.FnName(s.Parent)+"|first-attempt flag", s.Parent.Pos(), "initialised true once, before Retry", "the first-attempt flag is not (only) initialised to true before backoff.Retry")
+				_, ok := flagInit(flagCell, s)
+				r.Check(ok, c.FnName(s.Parent)+"|first-attempt flag", s.Parent.Pos(), "a fresh cell per call with one constant initial value before Retry", "the first-attempt flag is not a fresh per-call cell with a single constant initial value set before backoff.Retry")
 			}
 		}
 	}
